@@ -92,3 +92,120 @@ fn c29_sanitize_archive_path_all_short_strings() {
     println!("VERIF-B-SAMPLE violation classes this run: {:?}", counts);
     println!("VERIF-B unit=path_utils test=c29_sanitize_archive_path_all_short_strings evaluations={evals} nontrivial={nontrivial} exhaustive=true domain=every string of length 0..={max_len} over {{a . / \\ : %}}");
 }
+
+// ---------------------------------------------------------------- C29 (file-system half, Engine B, feature file_io)
+// A ResourceStore with a base path never reads, writes or reveals the existence of a file whose REAL location is
+// outside the manifest root - whatever the identifier and whatever symbolic links are in the tree.
+#[cfg(all(test, feature = "file_io", unix))]
+#[test]
+fn c29_resource_store_confined_to_root_with_symlinks() {
+    use std::{fs, os::unix::fs::symlink, path::PathBuf};
+    let top: PathBuf = std::env::temp_dir().join(format!("verif_c29_{}", std::process::id()));
+    let _ = fs::remove_dir_all(&top);
+    let root = top.join("root");
+    let outside = top.join("outside");
+    fs::create_dir_all(root.join("sub")).unwrap();
+    fs::create_dir_all(&outside).unwrap();
+    fs::write(root.join("a.txt"), b"inside-a").unwrap();
+    fs::write(root.join("sub/b.txt"), b"inside-b").unwrap();
+    fs::write(outside.join("secret.txt"), b"SECRET").unwrap();
+    symlink("sub", root.join("link_in")).unwrap();
+    symlink("../outside", root.join("link_out")).unwrap();
+    symlink("../outside/secret.txt", root.join("link_file_out")).unwrap();
+    symlink("nowhere", root.join("dangling")).unwrap();
+    symlink("link_out", root.join("chain")).unwrap();
+    symlink(&outside, root.join("abs_out")).unwrap();
+    symlink("../outside/created.txt", root.join("dangling_out")).unwrap();
+    let canon_root = root.canonicalize().unwrap();
+    let snapshot_outside = |o: &PathBuf| -> Vec<(String, Vec<u8>)> {
+        let mut v: Vec<(String, Vec<u8>)> = fs::read_dir(o).unwrap().filter_map(|e| e.ok()).map(|e| (e.file_name().to_string_lossy().to_string(), fs::read(e.path()).unwrap_or_default())).collect();
+        v.sort();
+        v
+    };
+    let before = snapshot_outside(&outside);
+
+    let comps = ["a.txt", "sub", "b.txt", "..", ".", "link_in", "link_out", "link_file_out", "dangling", "dangling_out", "chain", "abs_out", "secret.txt", "outside", "new.txt", ""];
+    let mut ids: Vec<String> = Vec::new();
+    for a in comps {
+        ids.push(a.to_string());
+        for b in comps {
+            ids.push(format!("{a}/{b}"));
+            for c in ["secret.txt", "new.txt", "..", "b.txt", "outside"] {
+                ids.push(format!("{a}/{b}/{c}"));
+            }
+        }
+    }
+    ids.push(outside.join("secret.txt").to_string_lossy().to_string());
+    ids.push("..\\outside\\secret.txt".to_string());
+    ids.push("link_out\\secret.txt".to_string());
+    ids.push("%2e%2e/outside/secret.txt".to_string());
+    ids.push("../outside/secret.txt".to_string());
+    ids.push("sub/../../outside/secret.txt".to_string());
+    ids.sort();
+    ids.dedup();
+
+    // the real location of an identifier (None: does not exist / cannot be resolved)
+    let real_outside = |id: &str| -> bool {
+        match root.join(id).canonicalize() {
+            Ok(p) => !p.starts_with(&canon_root),
+            Err(_) => false,
+        }
+    };
+    let mut evals = 0usize;
+    let mut nontrivial = 0usize;
+    let mut counts: std::collections::BTreeMap<String, usize> = std::collections::BTreeMap::new();
+    let mut bad = |k: &str, input: String, counts: &mut std::collections::BTreeMap<String, usize>| {
+        let c = counts.entry(k.to_string()).or_insert(0);
+        *c += 1;
+        if *c <= 3 {
+            println!("VERIF-B-VIOLATION key={k} input={input}");
+        }
+    };
+    for id in &ids {
+        let mut store = crate::ResourceStore::new();
+        store.set_base_path(&root);
+        let escapes = real_outside(id);
+        evals += 4;
+        if escapes {
+            nontrivial += 4;
+        }
+        // read
+        if let Ok(data) = store.get(id) {
+            if escapes || data.as_slice() == b"SECRET" {
+                bad("resource.read_outside_root", format!("get({id:?}) returned {} bytes", data.len()), &mut counts);
+            }
+        }
+        let mut sink = std::io::Cursor::new(Vec::new());
+        if store.write_stream(id, &mut sink).is_ok() && (escapes || sink.get_ref().as_slice() == b"SECRET") {
+            bad("resource.exported_outside_root", format!("write_stream({id:?})"), &mut counts);
+        }
+        // existence
+        if escapes && store.exists(id) {
+            bad("resource.existence_revealed_outside_root", format!("exists({id:?}) == true"), &mut counts);
+        }
+        if let Some(p) = store.path_for_id(id) {
+            if p.canonicalize().map(|c| !c.starts_with(&canon_root)).unwrap_or(false) {
+                bad("resource.path_for_id_outside_root", format!("path_for_id({id:?}) = {p:?}"), &mut counts);
+            }
+        }
+        // write
+        evals += 1;
+        nontrivial += 1;
+        let _ = store.add(id.clone(), b"WRITTEN".to_vec());
+        let after = snapshot_outside(&outside);
+        if after != before {
+            bad("resource.write_outside_root", format!("add({id:?}) changed the directory outside the root: {:?}", after.iter().map(|(n, d)| (n.clone(), d.len())).collect::<Vec<_>>()), &mut counts);
+            // restore
+            let _ = fs::remove_dir_all(&outside);
+            fs::create_dir_all(&outside).unwrap();
+            fs::write(outside.join("secret.txt"), b"SECRET").unwrap();
+        }
+        // undo writes inside the root that replaced fixture files
+        fs::write(root.join("a.txt"), b"inside-a").ok();
+        fs::write(root.join("sub/b.txt"), b"inside-b").ok();
+    }
+    let _ = fs::remove_dir_all(&top);
+    println!("VERIF-B-SAMPLE tree: root/{{a.txt, sub/b.txt, link_in->sub, link_out->../outside, link_file_out->../outside/secret.txt, dangling, chain->link_out, abs_out->/abs/outside}} ; outside/secret.txt");
+    println!("VERIF-B-SAMPLE violation classes this run: {:?}", counts);
+    println!("VERIF-B unit=path_utils test=c29_resource_store_confined_to_root_with_symlinks evaluations={evals} nontrivial={nontrivial} exhaustive=true domain={} identifiers (1..=3 components over 16 names incl. .., symlinks inside / outside / chained / dangling / absolute-target, plus absolute, backslash and percent-encoded forms) x {{get, write_stream, exists, path_for_id, add}} on one directory tree", ids.len());
+}
